@@ -343,7 +343,9 @@ AtomsVideoOut == {T("bgr"), F("bgr"), T("fps"), V("fps", <<"25">>), V("segtime",
                   V("params", <<"{\"crf\": 23", ",", " ", "\"g\": 30}">>),          \* only writable in list form
                   V("g", <<"30">>), V("vf", <<"scale", "=", "1280:720">>),       \* "etc...": other names go to params
                   V("crf", <<"0">>), F("an")}                                    \* ... whatever their values: 0, false
-OkVideoOut(os) == ~(\E i \in 1..Len(os) : os[i].k = <<"params">>) \/ Names(os) \subseteq VideoOutKnown
+\* an explicit params dictionary next to pass-through names: allowed when the names do not collide with its keys (crf, g),
+\* so that the merge into params is independent of the order (video_out.py:380-384 merges, it does not replace)
+OkVideoOut(os) == ~(\E i \in 1..Len(os) : os[i].k = <<"params">>) \/ Names(os) \subseteq VideoOutKnown \cup {"vf", "an"}
 AddrsImageIn == {<<"file:///path/to/images">>, <<"s3://bucket/images">>, <<"file:///pa", "!", "th/to">>}
 AtomsImageIn == {T("loop"), F("loop"), V("loop", <<"3">>), T("recursive"), F("recursive"), V("pattern", <<"*.jpg">>),
                  V("region", <<"us-west-2">>), V("maxfps", <<"1.0">>)}             \* image_in.py:145-160
@@ -361,7 +363,12 @@ FillImageIn  == Fill(<<"file:///imgs">>, <<"file:///pa", "!", "th/to">>, T("recu
 FillImageOut == Fill(<<"file:///o/a_%d.jpg">>, <<"file:///other/pa", "!", "th_%d.png">>, F("bgr"), V("quality", <<"95">>), "archive")
 PoolSeq(fill, full) == fill \o SetToSeq(full \ {fill[i] : i \in 1..Len(fill)})
 PoolVideoIn  == PoolSeq(FillVideoIn,  EntryPool(AddrsVideoIn,  AtomsVideoIn,  OkVideoIn))
-PoolVideoOut == PoolSeq(FillVideoOut, EntryPool(AddrsVideoOut, AtomsVideoOut, OkVideoOut))
+\* at every MaxOpts: entries that carry an explicit params dictionary AND a pass-through name (merged, not replaced)
+ParamsPairs == {X(a, os, <<>>) : a \in AddrsVideoOut,
+                os \in {s \in [1..2 -> AtomsVideoOut] : /\ ValidOpts(s) /\ OkVideoOut(s)
+                                                         /\ \E i \in 1..2 : s[i].k = <<"params">>
+                                                         /\ Names(s) \cap {"vf", "an"} # {}}}
+PoolVideoOut == PoolSeq(FillVideoOut, EntryPool(AddrsVideoOut, AtomsVideoOut, OkVideoOut) \cup ParamsPairs)
 PoolImageIn  == PoolSeq(FillImageIn,  EntryPool(AddrsImageIn,  AtomsImageIn,  OkAny))
 PoolImageOut == PoolSeq(FillImageOut, EntryPool(AddrsImageOut, AtomsImageOut, OkAny))
 (* Filter: sources = mq addresses with topic mappings in every text form (no options); PoolMaps = min(MaxMaps, 2) *)
